@@ -315,6 +315,14 @@ func rawFive(b []byte) string {
 }
 
 func judgeC15(r *seqRun) {
+	// well-formedness is unconditional: it also holds for inputs outside the value oracles' domain
+	// (duplicate member names, root replaced by null, ...)
+	if r.ref.DontCare != "" && r.obs.Panic == "" && r.obs.DecodeErr == "" && r.obs.Err == "" {
+		if _, err := rj.Parse(r.obs.Out); err != nil && len(r.obs.Out) > 0 {
+			r.viol("output-not-json", "output-not-json:"+r.lastKind(), fmt.Sprintf("successful Apply returned %q, which is not well-formed JSON (%v)", r.obs.Out, err))
+		}
+		r.ctx.Count("wellformedness_checked_outside_value_domain", 1)
+	}
 	if !judgeResult(r, false) {
 		return
 	}
